@@ -320,6 +320,34 @@ class G:
         lines.append("end")
         return [l for x in lines for l in x.split("\n")]
 
+def with_battery(lines, seed):
+    """after the last mutator of each case: an equal twin of its receiver built from the other description, and the
+    comparison queries asked TWICE on the object itself (a query may leave a flag behind that poisons the next one)"""
+    import random
+    r = random.Random(seed)
+    out, cur = [], []
+    def flush():
+        if not cur: return
+        ops = [l for l in cur if l.startswith("op ")]
+        ids = [int(l.split(" ")[1]) for l in cur if l.split(" ")[0] in ("new", "copy", "twin")]
+        if ops and ids:
+            x = int(ops[-1].split(" ")[1]); t = max(ids) + 1
+            extra = ["twin %d %d %s" % (t, x, r.choice(["cons", "gens", "cons_nm", "gens_nm"]))]
+            for _ in range(2):
+                extra += ["qry %d equals %d" % (x, t), "qry %d contains %d" % (x, t), "qry %d contains %d" % (t, x)]
+            extra += ["qry %d is_disjoint_from %d" % (x, t), "qry %d strictly_contains %d" % (x, t), "obs %d %s" % (x, r.choice(G.OBS)),
+                      "qry %d equals %d" % (x, t)]
+            k = len(cur) - 1
+            while k >= 0 and cur[k] not in ("stall",): k -= 1
+            cur[k:k] = extra
+        out.extend(cur); del cur[:]
+    for l in lines:
+        if l.startswith("case "): flush()
+        cur.append(l)
+    flush()
+    return out
+
+
 def make_cases(seed, count, maxdim=3, nobj=3, steps=7, ops=None, pq=0.3, pobs=0.2, start=0, special=0.0, divbias=False, partners=True,
                special_kinds=None, thin=False):
     g = G(seed, maxdim)
@@ -448,11 +476,16 @@ class Lazy(G):
         r = self.r
         n = r.randint(1, self.maxdim)
         topo = r.choice(["C", "NNC", "NNC"])
-        pts = [[r.randint(-3, 3) for _ in range(n)] for _ in range(r.randint(1, 4))]
+        cone = r.random() < 0.3
+        pts = [[r.randint(-3, 3) for _ in range(n)] for _ in range(1 if cone else r.randint(1, 4))]
         gs = ["p 1 %s" % " ".join(map(str, q)) for q in pts]
         if topo == "NNC" and len(pts) > 1 and r.random() < 0.5:
             gs[-1] = "c" + gs[-1][1:]            # one vertex is only a closure point
-        if r.random() < 0.25: gs.append(self.gen(n, topo, "r"))
+        if cone:
+            # an apex with rays / lines (and, for NNC, sometimes the apex also as a closure point)
+            for _ in range(r.randint(1, 3)): gs.append(self.gen(n, topo, r.choice("rrl")))
+            if topo == "NNC" and r.random() < 0.3: gs.append("c 1 %s" % " ".join(map(str, pts[0])))
+        elif r.random() < 0.25: gs.append(self.gen(n, topo, "r"))
         # a non-unit divisor somewhere (scaled vertex: same point)
         if r.random() < 0.5:
             j = r.randrange(len(pts)); d = r.choice([2, 3])
@@ -465,7 +498,15 @@ class Lazy(G):
         if r.random() < 0.3: L.append("op 0 add_generator %s" % self.gen(n, topo, "p"))       # a pending row
         k = 1
         for _ in range(r.randint(4, 8)):
-            v = r.choice(pts); a = self.vec(n, nz=True); dot = sum(x * y for x, y in zip(a, v))
+            v = r.choice(pts); a = self.vec(n, nz=True)
+            if len(pts) >= 2 and n >= 2 and r.random() < 0.4:
+                # a hyperplane containing TWO of the vertices (supporting an edge / facet, or cutting through both)
+                w = r.choice([q for q in pts if q is not v] or pts); d = [x - y for x, y in zip(w, v)]
+                if n == 2: b2 = [-d[1], d[0]]
+                else:
+                    e = self.vec(3, nz=True); b2 = [d[1] * e[2] - d[2] * e[1], d[2] * e[0] - d[0] * e[2], d[0] * e[1] - d[1] * e[0]]
+                if any(b2): a = b2
+            dot = sum(x * y for x, y in zip(a, v))
             u = r.random()
             if u < 0.4:
                 m = r.choice([1, 2, 3, 5]); q = "relation_with_cg %d %d %s" % (m, -dot + m * r.choice([0, 0, 1, -1, 2]), " ".join(map(str, a)))
@@ -542,6 +583,55 @@ class Lazy(G):
             L.append(box(2)); L.append("op %d %s 2" % (x, r.choice(ops)))
         L.append("stall"); L.append("end")
         return L
+
+
+    def merge_history(self, cid):
+        """merging of row systems: a receiver that holds ONE description, never minimized (its rows as given), meets or
+        joins an argument that is minimized and then holds a pending row; afterwards the comparison queries are asked
+        twice against a MINIMIZED twin (the quick equivalence test trusts sortedness / minimization flags)"""
+        r = self.r
+        n = r.randint(2, 3)
+        topo = r.choice(["C", "C", "NNC"])
+        side = r.choice(["cons", "cons", "gens"])
+        def scon():
+            # sparse inequality on one or two of the first n-1 variables: the last variable stays free (a line)
+            vs = r.sample(range(n - 1), r.randint(1, min(2, n - 1))); v = [0] * n
+            for i in vs: v[i] = r.choice([-2, -1, 1, 1, 2])
+            return "%s %d %s" % (">" if topo == "NNC" and r.random() < 0.2 else ">=", r.randint(-3, 20), " ".join(map(str, v)))
+        if side == "cons" and r.random() < 0.6:
+            L = ["case %s" % cid, "new 0 %s %d cons %d %s" % (topo, n, 1, scon()),
+                 "new 1 %s %d cons %d %s" % (topo, n, 1, scon()),
+                 "obs 1 %s" % r.choice(["minimized_generators", "minimized_constraints"]),
+                 "op 1 add_constraint %s" % scon()]
+            if r.random() < 0.4: L.append("op 1 add_constraint %s" % scon())
+            L.append("op 0 intersection_assign 1")
+        elif side == "cons":
+            L = ["case %s" % cid, "new 0 %s %d cons %d %s" % (topo, n, 1, self.con(n, topo, allow_eq=False)) if r.random() < 0.6
+                 else "new 0 %s %d cons %s" % (topo, n, self.cons(n, topo, 1, 2)),
+                 "new 1 %s %d cons %d %s" % (topo, n, 2, " ".join(self.con(n, topo, allow_eq=False) for _ in range(2))),
+                 "obs 1 %s" % r.choice(["minimized_generators", "minimized_constraints"]),
+                 "op 1 add_constraint %s" % self.con(n, topo, allow_eq=False)]
+            if r.random() < 0.6: L.append("op 1 add_constraint %s" % self.con(n, topo, allow_eq=False))
+            L.append("op 0 %s 1" % r.choice(["intersection_assign", "intersection_assign", "concatenate_assign"]))
+        else:
+            L = ["case %s" % cid, "new 0 %s %d gens %s" % (topo, n, self.gens(n, topo, 1, 3)),
+                 "new 1 %s %d gens %s" % (topo, n, self.gens(n, topo, 1, 2)),
+                 "obs 1 %s" % r.choice(["minimized_generators", "minimized_constraints"]),
+                 "op 1 add_generator %s" % self.gen(n, topo, r.choice("prl"))]
+            L.append("op 0 %s 1" % r.choice(["poly_hull_assign", "time_elapse_assign", "add_generators_from"]))
+        L += ["twin 2 0 %s" % r.choice(["cons", "gens"]), "obs 2 %s" % r.choice(["minimized_constraints", "minimized_generators"])]
+        for _ in range(2):
+            L += ["qry 0 equals 2", "qry 0 contains 2", "qry 2 contains 0", "qry 2 equals 0"]
+        L += ["obs 0 minimized_constraints", "qry 0 equals 2", "stall", "end"]
+        return L
+
+
+def make_merge_cases(seed, count, start=0):
+    g = Lazy(seed, 3, big=0.0)
+    out = []
+    for i in range(count):
+        out += g.merge_history("M%d" % (start + i))
+    return out
 
 
 def make_boxpair_cases(seed, count, ops, start=0):
